@@ -18,6 +18,7 @@ harness and rendered as a Gallina `case` term):
   [11, ctx, emax, raddr, cid?, source, nh?, attrs]   Table::insert + export, then Table::restale_llgr + export
   [13, ctx, emax, raddr, cid?, family, [change..], probe]   a history of changes through one ExportMap
   [14, ..as 9.., [accept_all, [rt8..]]]   process_nlri_change with a real RtcFilter (from_paths)
+  [15, [[local_pref, filtered, nexthop_invalid]..]]   the change stream of the real Table::restale_llgr for one destination
   [12, ..as 9.., policy]                  process_nlri_change with a real one-statement table::PolicyAssignment
                                           policy = [nh_action?, med_action?, statement disposition, default disposition, as_prepend?]
 with attr = [code, flags, kind(0 Val,1 Bin,2 Opaque), payload], ip = [0|1, bytes],
@@ -210,6 +211,15 @@ def case_coq(c):
         body = 'CProcessPol %s %d %s %s %s %s %s (Build_stmt %s %s %s) %s %s' % (
             c_ctx(c[1]), c[2], c_ip(c[3]), copt(c[4], c_num), c_change(c[5]), c_emap(c[6]), cbytes(c[7]),
             copt(pol[0], c_nha), copt(pol[1], c_med), dn[pol[2]], copt(pol[4] if len(pol) > 4 else [], c_pre), dn[pol[3]])
+    elif t == 15:
+        # the eligible paths in their order after marking: by LOCAL_PREF, highest first (all
+        # paths are the marked peer's, so staleness does not separate them)
+        specs = c[1]
+        elig = sorted([k for k, sp in enumerate(specs) if not sp[1] and not sp[2]], key=lambda k: -specs[k][0])
+        any_from = any(not sp[1] for sp in specs)
+        src = '(SrcPeer (Build_peer_src (IP4 [10;0;0;2]) 65002 65001 167772162 Ebgp true))'
+        paths = cl(['(Build_path %d %s None [])' % (k + 1, src) for k in elig])
+        body = 'CRestale %s %s (IP4 [10;0;0;2]) %s' % ('(Some %d)' % (elig[0] + 1) if elig else 'None', c_bool(any_from), paths)
     elif t == 14:
         r = c[8]
         body = 'CProcessRtc %s %d %s %s %s %s %s %s %s' % (
@@ -785,6 +795,11 @@ class Prop:
             k = rng.random()
             rtc = [1 if k < 0.1 else 0, [list(rt) for rt in rng.sample(self.RTS, rng.choice([0, 1, 1, 2]))]]
             cases.append([14] + c9[1:] + [rtc])
+        # --- the change stream of the real Table::restale_llgr on multi-path destinations
+        for n in (1, 2, 3):
+            for flags in itertools.product(((0, 0), (1, 0), (0, 1)), repeat=n):
+                lps = rng.sample([50, 100, 150, 200, 250], n)
+                cases.append([15, [[lps[k], flags[k][0], flags[k][1]] for k in range(n)]])
         # --- histories through one ExportMap: announce / replace / re-rank / withdraw sequences over
         # two destinations and a small pool of paths, sources flipping to LLGR-stale in between
         for _ in range(150 * scale):
@@ -1052,6 +1067,19 @@ class Prop:
             return None
         if t in (9, 12, 14):
             return self.oracle_process(c, obs)
+        if t == 15:
+            # RFC 9494 4.3 needs every eligible path of the marked peer to be looked at again by
+            # the exporter: named as replaced once, and the best reported as changed
+            specs = c[1]
+            elig = sorted([k for k, sp in enumerate(specs) if not sp[1] and not sp[2]], key=lambda k: -specs[k][0])
+            if obs == [-1]:
+                return 'restale_llgr panicked'
+            named = [ch[2][0] for ch in obs if ch[2]]
+            if sorted(named) != sorted(k + 1 for k in elig):
+                return 'restale_llgr does not name every eligible path of the marked peer as replaced exactly once'
+            if elig and not any(ch[0] for ch in obs):
+                return 'restale_llgr does not report the marked best path as changed'
+            return None
         if t == 13:
             return self.oracle_history(c, obs)
         if t == 11:
@@ -1291,13 +1319,15 @@ class Prop:
             return (t, c[1][0], bool(c[3]), obs == [], self._shape(c[4]))
         if t == 11:
             return (t, c[1][0], c[5][5], c[2], bool(c[4]), len(obs[0]), len(obs[1])) if obs[0] else None
+        if t == 15:
+            return (t, json.dumps([sp[1:] for sp in c[1]]), len(obs)) if obs != [-1] else None
         if t == 13:
             return (t, c[1][0], min(c[2], 2), tuple((o[0], o[1], o[2]) for o in obs[0]), json.dumps(obs[1])) if obs[0] else None
         return None
 
     def classify(self, c, obs):
         names = ['prepend', 'strip_confed', 'is_as_loop', 'export_attrs', 'pre_policy_defaults', 'rr_reflect',
-                 'llgr_stale', 'inject_local_pref', 'suppress_predicates', 'process_nlri_change', 'rx_update', 'llgr_scenario', 'process_nlri_change_policy', 'history', 'process_nlri_change_rtc']
+                 'llgr_stale', 'inject_local_pref', 'suppress_predicates', 'process_nlri_change', 'rx_update', 'llgr_scenario', 'process_nlri_change_policy', 'history', 'process_nlri_change_rtc', 'restale_llgr_stream']
         tags = ['op_' + names[c[0]]]
         if obs == [-1]:
             tags.append('panic')
